@@ -77,19 +77,38 @@ Proof. split; [apply nodup_map_filter|apply ssorted_map_filter]. Qed.
 Lemma tbl_ok_del_ids {R} (key : R -> id) ids l : tbl_ok key l (del_ids key ids l).
 Proof. apply tbl_ok_filter. Qed.
 
+(* ---- the ordering links never form a cycle and never leave the subscription: there is a
+   ranking of the delivery ids that every link (d.not_before = p) strictly decreases, and the
+   row a link points to belongs to the same subscription (used by T_Live: an ordered backlog
+   cannot block itself) ---- *)
+Definition lb_ok (ds : list del) (rank : id -> nat) : Prop :=
+  forall d pd, In d ds -> In pd ds -> d_not_before d = Some (d_id pd) ->
+    d_sub pd = d_sub d /\ (rank (d_id pd) < rank (d_id d))%nat.
+Definition LBr (ds : list del) : Prop := exists rank, lb_ok ds rank.
+
+Definition maxrank (rank : id -> nat) (ds : list del) : nat :=
+  fold_right (fun d a => Nat.max (rank (d_id d)) a) 0%nat ds.
+Lemma maxrank_ge rank ds d : In d ds -> (rank (d_id d) <= maxrank rank ds)%nat.
+Proof.
+  induction ds as [|x ds IH]; cbn [In maxrank fold_right]; intros H; [contradiction|].
+  destruct H as [->|H]; [apply Nat.le_max_l|].
+  eapply Nat.le_trans; [apply IH; exact H|apply Nat.le_max_r].
+Qed.
+
 (* ---- good steps ---- *)
 Definition good (st st' : state) : Prop :=
   (ids_unique st -> ids_unique st') /\ (tsorted st -> tsorted st') /\
-  (ids_unique st -> refsP st -> refsP st').
+  (ids_unique st -> refsP st -> refsP st') /\
+  (ids_unique st -> refsP st -> LBr (dels st) -> LBr (dels st')).
 
 Definition same_others (st st' : state) : Prop :=
   topics st' = topics st /\ subs st' = subs st /\ msgs st' = msgs st /\ snaps st' = snaps st.
 
 Lemma good_refl st : good st st.
-Proof. split; [|split]; auto. Qed.
+Proof. split; [|split; [|split]]; auto. Qed.
 
 Lemma good_trans st1 st2 st3 : good st1 st2 -> good st2 st3 -> good st1 st3.
-Proof. intros (A&B&C) (D&E&F). split; [|split]; auto. Qed.
+Proof. intros (A&B&C&L1) (D&E&F&L2). split; [|split; [|split]]; auto. Qed.
 
 Lemma same_others_refl st : same_others st st.
 Proof. repeat split. Qed.
@@ -100,17 +119,27 @@ Proof. intros (A&B&C&D) (E&F&G&H). repeat split; congruence. Qed.
 Lemma same_others_set_dels st ds : same_others st (set_dels st ds).
 Proof. repeat split. Qed.
 
-Lemma good_intro st st' :
+Lemma good_intro' st st' :
+  (ids_unique st -> refsP st -> LBr (dels st) -> LBr (dels st')) ->
   tbl_ok t_id (topics st) (topics st') -> tbl_ok s_id (subs st) (subs st') ->
   tbl_ok m_id (msgs st) (msgs st') -> tbl_ok d_id (dels st) (dels st') ->
   tbl_ok n_id (snaps st) (snaps st') ->
   (ids_unique st -> refsP st -> refsP st') -> good st st'.
 Proof.
-  intros [T1 T2] [S1 S2] [M1 M2] [D1 D2] [N1 N2] HR.
-  split; [|split]; [| |exact HR].
+  intros HL [T1 T2] [S1 S2] [M1 M2] [D1 D2] [N1 N2] HR.
+  split; [|split; [|split]]; [| |exact HR|exact HL].
   - intros (A&B&C&D&E). repeat split; auto.
   - intros (A&B&C&D&E). repeat split; auto.
 Qed.
+
+(* a change that leaves the deliveries table alone *)
+Lemma good_intro st st' :
+  dels st' = dels st ->
+  tbl_ok t_id (topics st) (topics st') -> tbl_ok s_id (subs st) (subs st') ->
+  tbl_ok m_id (msgs st) (msgs st') -> tbl_ok d_id (dels st) (dels st') ->
+  tbl_ok n_id (snaps st) (snaps st') ->
+  (ids_unique st -> refsP st -> refsP st') -> good st st'.
+Proof. intros E. apply good_intro'. rewrite E. auto. Qed.
 
 (* ---- deliveries ---- *)
 Definition del_from (st : state) (d' : del) : Prop :=
@@ -120,13 +149,14 @@ Definition del_from (st : state) (d' : del) : Prop :=
    forall p, d_not_before d' = Some p -> In p (dids st)).
 
 Lemma good_dels st ds' :
+  (ids_unique st -> refsP st -> LBr (dels st) -> LBr ds') ->
   tbl_ok d_id (dels st) ds' ->
   (ids_unique st -> refsP st -> forall d', In d' ds' -> del_from st d') ->
   (ids_unique st -> refsP st ->
    forall d' p, In d' ds' -> d_not_before d' = Some p -> In p (dids st) -> In p (map d_id ds')) ->
   good st (set_dels st ds').
 Proof.
-  intros HT HF HK. apply good_intro; cbn [set_dels topics subs msgs dels snaps];
+  intros HL HT HF HK. apply good_intro'; [exact HL|..]; cbn [set_dels topics subs msgs dels snaps];
     try apply tbl_ok_refl; [exact HT|].
   intros U R. pose proof (HF U R) as HF'. pose proof (HK U R) as HK'.
   destruct R as (R1&R2&R3&R4&R5&R6&R7).
@@ -155,6 +185,12 @@ Lemma good_dels_map st f :
   (forall d, dkeep d (f d)) -> good st (set_dels st (map f (dels st))).
 Proof.
   intros HK. apply good_dels.
+  - intros _ _ [rank Hr]. exists rank. intros d' pd' Hd' Hpd' Hl.
+    apply in_map_iff in Hd'. destruct Hd' as [d [<- Hd]].
+    apply in_map_iff in Hpd'. destruct Hpd' as [pd [<- Hpd]].
+    destruct (HK d) as (A1&A2&A3&A4). destruct (HK pd) as (B1&B2&B3&B4).
+    rewrite A4, B1 in Hl. destruct (Hr d pd Hd Hpd Hl) as [Es Er].
+    rewrite A1, A2, B1, B2. split; assumption.
   - apply tbl_ok_map. intros r _. apply HK.
   - intros _ _ d' Hd'. apply in_map_iff in Hd'. destruct Hd' as [d [<- Hd]].
     destruct (HK d) as (A&B&C&D). left. exists d. auto.
@@ -173,9 +209,28 @@ Lemma good_dels_ins st d :
   has_id d_id (d_id d) (dels st) = false ->
   In (d_sub d) (sids st) -> In (d_msg d) (mids st) ->
   (forall p, d_not_before d = Some p -> In p (dids st)) ->
+  (ids_unique st -> forall pd, In pd (dels st) -> d_not_before d = Some (d_id pd) -> d_sub pd = d_sub d) ->
   good st (set_dels st (ins d_id d (dels st))).
 Proof.
-  intros HF Hs Hm Hn. apply good_dels.
+  intros HF Hs Hm Hn Hsub. apply good_dels.
+  - intros U R [rank Hr].
+    assert (Fresh : forall x, In x (dels st) -> d_id x <> d_id d).
+    { intros x Hx E. apply has_id_false in HF. apply HF. rewrite <- E. apply in_map. exact Hx. }
+    exists (fun i => if N.eqb i (d_id d) then S (maxrank rank (dels st)) else rank i).
+    intros d1 pd1 Hd1 Hpd1 Hl. apply in_ins in Hd1. apply in_ins in Hpd1.
+    destruct R as (_&_&_&_&_&_&R7). unfold dids in R7.
+    destruct Hd1 as [->|Hd1]; destruct Hpd1 as [->|Hpd1].
+    + exfalso. apply Hn in Hl. unfold dids in Hl. apply in_map_iff in Hl. destruct Hl as [x [Ex Hx]].
+      exact (Fresh x Hx Ex).
+    + split; [apply Hsub; assumption|].
+      rewrite N.eqb_refl. destruct (N.eqb (d_id pd1) (d_id d)) eqn:E;
+        [apply N.eqb_eq in E; exfalso; exact (Fresh pd1 Hpd1 E)|].
+      apply Nat.lt_succ_r. apply maxrank_ge. exact Hpd1.
+    + exfalso. apply (R7 d1 (d_id d) Hd1) in Hl. apply in_map_iff in Hl. destruct Hl as [x [Ex Hx]].
+      exact (Fresh x Hx Ex).
+    + destruct (N.eqb (d_id d1) (d_id d)) eqn:E1; [apply N.eqb_eq in E1; exfalso; exact (Fresh d1 Hd1 E1)|].
+      destruct (N.eqb (d_id pd1) (d_id d)) eqn:E2; [apply N.eqb_eq in E2; exfalso; exact (Fresh pd1 Hpd1 E2)|].
+      apply Hr; assumption.
   - apply tbl_ok_ins. exact HF.
   - intros _ _ d' Hd'. apply in_ins in Hd'. destruct Hd' as [->|Hd'].
     + right. auto.
@@ -201,6 +256,16 @@ Lemma good_dels_prune st chosen :
   good st (set_dels st (map (d_null_link chosen) (del_ids d_id chosen (dels st)))).
 Proof.
   apply good_dels.
+  - intros _ _ [rank Hr]. exists rank. intros d' pd' Hd' Hpd' Hl.
+    apply in_map_iff in Hd'. destruct Hd' as [d [<- Hd]].
+    apply in_map_iff in Hpd'. destruct Hpd' as [pd [<- Hpd]].
+    apply in_del_ids in Hd. destruct Hd as [Hd _]. apply in_del_ids in Hpd. destruct Hpd as [Hpd _].
+    rewrite !d_null_link_id in *.
+    assert (Sd : forall x, d_sub (d_null_link chosen x) = d_sub x).
+    { intros x. destruct (d_null_link_cases chosen x) as [->|(p&_&_&_&A&_)]; auto. }
+    rewrite !Sd.
+    destruct (d_null_link_cases chosen d) as [E|(q&_&_&_&_&_&C)]; [|congruence].
+    rewrite E in Hl. apply Hr; assumption.
   - eapply tbl_ok_trans; [apply tbl_ok_del_ids|].
     apply tbl_ok_map. intros r _. apply d_null_link_id.
   - intros _ _ d' Hd'. apply in_map_iff in Hd'. destruct Hd' as [d [<- Hd]].
@@ -229,7 +294,7 @@ Lemma good_subs st ss' :
   (ids_unique st -> refsP st -> forall d, In d (dels st) -> In (d_sub d) (sids st) -> In (d_sub d) (map s_id ss')) ->
   good st (set_subs st ss').
 Proof.
-  intros HT HF HK. apply good_intro; cbn [set_subs topics subs msgs dels snaps];
+  intros HT HF HK. apply good_intro; [reflexivity|..]; cbn [set_subs topics subs msgs dels snaps];
     try apply tbl_ok_refl; [exact HT|].
   intros U R. pose proof (HF U R) as HF'. pose proof (HK U R) as HK'.
   destruct R as (R1&R2&R3&R4&R5&R6&R7).
@@ -317,7 +382,7 @@ Lemma good_msgs st ms' :
   (ids_unique st -> refsP st -> forall d, In d (dels st) -> In (d_msg d) (mids st) -> In (d_msg d) (map m_id ms')) ->
   good st (set_msgs st ms').
 Proof.
-  intros HT HF HK. apply good_intro; cbn [set_msgs topics subs msgs dels snaps];
+  intros HT HF HK. apply good_intro; [reflexivity|..]; cbn [set_msgs topics subs msgs dels snaps];
     try apply tbl_ok_refl; [exact HT|].
   intros U R. pose proof (HF U R) as HF'. pose proof (HK U R) as HK'.
   destruct R as (R1&R2&R3&R4&R5&R6&R7).
@@ -359,7 +424,7 @@ Lemma good_snaps st ns' :
      (exists n, In n (snaps st) /\ n_topic n' = n_topic n) \/ In (n_topic n') (tids st)) ->
   good st (set_snaps st ns').
 Proof.
-  intros HT HF. apply good_intro; cbn [set_snaps topics subs msgs dels snaps];
+  intros HT HF. apply good_intro; [reflexivity|..]; cbn [set_snaps topics subs msgs dels snaps];
     try apply tbl_ok_refl; [exact HT|].
   intros U R. pose proof (HF U R) as HF'.
   destruct R as (R1&R2&R3&R4&R5&R6&R7).
@@ -394,7 +459,7 @@ Lemma good_topics_incl st ts' :
   tbl_ok t_id (topics st) ts' -> incl (tids st) (map t_id ts') ->
   good st (set_topics st ts').
 Proof.
-  intros HT HI. apply good_intro; cbn [set_topics topics subs msgs dels snaps];
+  intros HT HI. apply good_intro; [reflexivity|..]; cbn [set_topics topics subs msgs dels snaps];
     try apply tbl_ok_refl; [exact HT|].
   intros U (R1&R2&R3&R4&R5&R6&R7).
   unfold refsP, tids, sids, mids, dids in *; cbn [set_topics topics subs msgs dels snaps].
